@@ -1,8 +1,8 @@
 from checks import _level2
 from oracles import level2 as oracle
 
-GEN = ["Tol"]
-LEAN_TARGETS = ["MagpyVerif.Props.C06"]
+GEN = ["Tol", "CylSegGen"]
+LEAN_TARGETS = ["MagpyVerif.Props.C06", "MagpyVerif.Gen.CylSegGen"]  # CylSegGen: the regenerated CylinderSegment translation and its `sync_*` theorems against the frozen model
 PROPS = ["MagpyVerif.Props.C06"]
 NOT_SHOWN = {
  "03": ["full getBH pipeline covariance with Sensor observers (proved for position observers; sensors are C04)"],
@@ -22,7 +22,16 @@ def run(ctx, model_ok):
         ctx.cov["correspondence_trimesh_batch"] = trimesh_family.run_batch_stream(ctx, ctx.scale(80, 2500))
         from corr import poly_family
         ctx.cov["correspondence_poly"] = poly_family.run_stream(ctx, ctx.scale(150, 5000))
+    # the CylinderSegment theorems are about Model/CylSeg*.lean: is the frozen translation still what the source says, and does the port agree with the real code?
+    from checks import _cylseg
+    _cylseg.run(ctx, ctx.scale(300, 10000))
     _level2.run(ctx, oracle.c06_sweep, {"03": 60, "04": 60, "05": 40, "06": 50}["06"], {"03": 2000, "04": 2000, "05": 1200, "06": 1500}["06"], NOT_SHOWN)
+    if ctx.driver_ok:
+        # shape bookkeeping of every entry point (positions_output_shape, duplicates_are_kept in Props/C07): iface stream
+        from corr import iface_family
+        ist = iface_family.run_stream(ctx, ctx.scale(150, 3000))
+        ist.pop("samples", None)
+        ctx.cov["correspondence_iface"] = ist
 
 
 replay = _level2.replay
